@@ -483,8 +483,8 @@ def run(ctx, rep):
     rep.ob("A2", not missing, getter.node, getter, construct="%d table-independent symbols of the alphabet" % len(fixed),
            how="contain all 16 index symbols, 9 branch symbols, [RingL] and [=RingL]", nontrivial=True, key="fixed/complete",
            witness=None if not missing else "the alphabet lacks %s for some tables" % missing[:6])
-    rt = set(ctx.fold.global_value("selfies.grammar_rules", "_PROCESS_RING_CACHE"))
-    bt = set(ctx.fold.global_value("selfies.grammar_rules", "_PROCESS_BRANCH_CACHE"))
+    rt = set(__import__("rules.symlang", fromlist=["x"]).symbol_table(ctx, "ring"))
+    bt = set(__import__("rules.symlang", fromlist=["x"]).symbol_table(ctx, "branch"))
     unknown = sorted(s for s in fixed if not (s in rt or s in bt or dec["dfa"].accepts(s)))
     rep.ob("A2", not unknown, getter.node, getter, construct="fixed symbols are decoder symbols", how="each is a ring / branch / atom symbol",
            witness=None if not unknown else "alphabet contains %s, unknown to the decoder" % unknown[:4], key="fixed/known")
